@@ -151,7 +151,7 @@ impl Future for QFut {
         if self.done {
             panic!("inner future polled after completion");
         }
-        if self.out == Out::Never {
+        if self.out == Out::Never || self.out == Out::Hog {
             return Poll::Pending;
         }
         if let Some(s) = self.sleep.as_mut() {
@@ -164,7 +164,7 @@ impl Future for QFut {
             Out::Ok => Poll::Ready(Ok(Resp { v: self.k, c: self.c, tag: self.tag })),
             Out::Err(kind) => Poll::Ready(Err(IErr { kind, v: self.k })),
             Out::Panic => panic!("scripted inner panic"),
-            Out::Never => unreachable!(),
+            Out::Never | Out::Hog => unreachable!(),
         }
     }
 }
